@@ -31,6 +31,10 @@ func checkC17(c *Check) {
 	ruleStreamFieldsRearmed(c, p, "R17.9")
 	c.RuleDoc["R17.14"] = "Size() reports a content size only once a header has been parsed for the current stream (= the Size part of R19.6): a Reset Reader is like a new one"
 	c.only(func(k string) bool { return k == "lz4.Reader.Size" }, func() { ruleContentSize(c, p, "R17.14") })
+	ruleStickyError(c, p, "R17.16")
+	c.RuleDoc["R17.16"] = "a failed object stays failed: returns reachable in errorState yield the latched error"
+	ruleNoDoubleRelease(c, p, "R17.17", "Writer", "Reader")
+	c.RuleDoc["R17.17"] = "= R08.16 for Writer and Reader (a Reset object does not hold a buffer it has already released)"
 	ruleObserversPure(c, p, "R17.15")
 	c.RuleDoc["R17.15"] = "observer methods (Size, isNotConcurrent, ErrorR, isLegacy) read no stream and change no field"
 	ruleWritesFailAfterClose(c, p, "R17.13")
